@@ -21,7 +21,7 @@ func init() {
 		Level: "other",
 		Explanation: "Decided (structural necessary conditions of determinism / non-interference): (R3.1) no module function reachable from the exported API writes package-level memory after initialisation and no goroutine is started, so extractions on distinct values share no mutable memory; (R3.2) every range-over-map loop is commutative, sorted before use, or explicitly justified, so no output depends on Go's randomised map order; (R3.3) option chaining copies every configuration field (clone completeness, shared with C10). " +
 			"Not decided: byte equality of outputs itself, determinism of the standard library, races inside one Extractor shared by two goroutines.",
-		Rules: []func(*eng.Ctx){ruleRenderLeavesReader, ruleNoPkgState, ruleMapOrder, ruleCloneComplete, ruleGlobalTableAlias, ruleCheckerPerPass, ruleMemoOnSuccess, ruleParsedDictsReadOnly, ruleCacheKeyAgreement, ruleInputReadonly, ruleReadOnlyExports},
+		Rules: []func(*eng.Ctx){rulePooledObjectsStayInside, ruleRenderLeavesReader, ruleNoPkgState, ruleMapOrder, ruleCloneComplete, ruleGlobalTableAlias, ruleCheckerPerPass, ruleMemoOnSuccess, ruleParsedDictsReadOnly, ruleCacheKeyAgreement, ruleInputReadonly, ruleReadOnlyExports},
 	})
 }
 
@@ -38,7 +38,7 @@ var registrationAPI = map[string]string{
 
 func ruleNoPkgState(c *eng.Ctx) {
 	const R = "R3.1-NO-PKG-STATE"
-	c.Rule(R, "no function other than package initialisers writes memory rooted at a package-level variable (directly, through a callee that writes through a parameter, or through a value a callee returns from a global) or hands the address of package-level storage to code outside the module; no go statement in non-test code", 1000, 4)
+	c.Rule(R, "no function other than package initialisers writes memory rooted at a package-level variable (directly, through a callee that writes through a parameter, or through a value a callee returns from a global) or hands the address of package-level storage to code outside the module; no go statement in non-test code (sync.Pool Get/Put are judged by R3.13)", 1000, 3)
 	p := c.P
 	funcs := p.ModuleFuncs()
 
